@@ -95,19 +95,31 @@ func (o *vectorOperator) initOutputs(ctx context.Context) error {
 	var errChan = make(chan error, 1)
 	go func() {
 		defer verifhook.Go("bin.init", 0)()
+		defer close(errChan)
+		defer func() {
+			if e := recover(); e != nil {
+				switch err := e.(type) {
+				case error:
+					errChan <- errors.Wrap(err, "unexpected error")
+				default:
+					errChan <- errors.Newf("unexpected error: %v", e)
+				}
+			}
+		}()
 		var err error
 		highCardSide, err = o.lhs.Series(ctx)
 		if err != nil {
 			errChan <- err
 		}
-		close(errChan)
 	}()
 
+	// The loader is always joined: it must not outlive this call.
 	lowCardSide, err := o.rhs.Series(ctx)
+	lhsErr := <-errChan
 	if err != nil {
 		return err
 	}
-	if err := <-errChan; err != nil {
+	if err := lhsErr; err != nil {
 		return err
 	}
 	verifhook.Yield("bin.init.joined")
